@@ -124,7 +124,18 @@ impl StateMachine<'_> {
                     .output_buffer
                     .push_str(&tabs::expand(&self.raw_line, &self.config.tab_cfg));
                 self.painter.output_buffer.push('\n');
-                State::HunkZero(Unified, None)
+                // The hunk goes on as the kind of diff it is: in a combined diff the lines that
+                // follow still have one marker column per parent.
+                match &self.state {
+                    HunkMinus(Combined(merge_parents, _), _)
+                    | HunkZero(Combined(merge_parents, _), _)
+                    | HunkPlus(Combined(merge_parents, _), _)
+                    | HunkHeader(Combined(merge_parents, _), _, _, _) => State::HunkZero(
+                        Combined(merge_parents.clone(), InMergeConflict::No),
+                        None,
+                    ),
+                    _ => State::HunkZero(Unified, None),
+                }
             }
         };
         self.painter.emit()?;
